@@ -146,6 +146,11 @@ func String(r *rand.Rand, o ValOpts) string {
 		return ""
 	}
 	var s string
+	if !o.NoBigStrings && r.IntN(400) == 0 {
+		// beyond the 64 KiB steps in which the file reader grows its block buffer
+		n := pick(r, []int{65535, 65536, 65537, 70000, 131072, 150000})
+		return strings.Repeat("0123456789abcdef", n/16+1)[:n]
+	}
 	switch r.IntN(8) {
 	case 0, 1, 2:
 		s = pick(r, strSpecials)
